@@ -206,6 +206,50 @@ fn check_soundness(n: usize, k: usize, nvals: usize, i0: usize, i1: usize) {
     }
 }
 
+/// the number of vouched items is bound to the proof: a proof for `ki` indices presented with `kc != ki` claimed leaves is
+/// rejected whatever the contents
+fn check_length_binding(n: usize, ki: usize, kc: usize, nvals: usize) {
+    let leaves = any_leaves(n);
+    let tree = MerkleTree::<IdealHash, Leaf>::new(&leaves);
+    let commitment = tree.to_merkle_tree_batch_commitment();
+    let raw_claim: [u8; 3] = kani::any();
+    let raw_vals: [u64; 3] = kani::any();
+    let mut idx = Vec::new();
+    let mut i = 0;
+    while i < 2 {
+        if i < ki {
+            idx.push(i);
+        }
+        i += 1;
+    }
+    let mut claimed = Vec::new();
+    let mut i = 0;
+    while i < 3 {
+        if i < kc {
+            claimed.push(Leaf(raw_claim[i]));
+        }
+        i += 1;
+    }
+    let mut vals = Vec::new();
+    let mut i = 0;
+    while i < 3 {
+        if i < nvals {
+            vals.push(raw_vals[i].to_le_bytes().to_vec());
+        }
+        i += 1;
+    }
+    let proof = MerkleBatchPath::<IdealHash>::new(vals, idx);
+    let r = commitment.verify_leaves_membership_from_batch_path(&claimed, &proof);
+    let ok = r.is_ok();
+    std::mem::forget(r);
+    kani::cover!(true, "reachable");
+    assert!(!ok, "C09 soundness: the number of claimed leaves is bound to the number of proof indices");
+}
+
+c09_harness! { #[kani::unwind(13)] fn c09_length_binding_n2_i1_c2() { check_length_binding(2, 1, 2, 1) } }
+c09_harness! { #[kani::unwind(13)] fn c09_length_binding_n2_i2_c1() { check_length_binding(2, 2, 1, 0) } }
+c09_harness! { #[kani::unwind(13)] fn c09_length_binding_n3_i1_c2() { check_length_binding(3, 1, 2, 2) } }
+
 macro_rules! c09_completeness { ($($name:ident = ($n:expr, $mask:expr)),* $(,)?) => { $( c09_harness! { #[kani::unwind(13)] fn $name() { check_completeness($n, $mask) } } )* }; }
 macro_rules! c09_soundness { ($($name:ident = ($n:expr, $k:expr, $v:expr, $i0:expr, $i1:expr)),* $(,)?) => { $( c09_harness! { #[kani::unwind(13)] fn $name() { check_soundness($n, $k, $v, $i0, $i1) } } )* }; }
 
@@ -220,4 +264,12 @@ c09_soundness!(
     // n = 3 (padding node next to leaf 2)
     c09_soundness_n3_k1_v2_i0 = (3, 1, 2, 0, 0), c09_soundness_n3_k1_v2_i2 = (3, 1, 2, 2, 0), c09_soundness_n3_k1_v1_i2 = (3, 1, 1, 2, 0), c09_soundness_n3_k1_v2_i3 = (3, 1, 2, 3, 0),
     c09_soundness_n3_k2_v1_i01 = (3, 2, 1, 0, 1), c09_soundness_n3_k2_v1_i23 = (3, 2, 1, 2, 3), c09_soundness_n3_k2_v2_i02 = (3, 2, 2, 0, 2), c09_soundness_n3_k2_v3_i22 = (3, 2, 3, 2, 2),
+);
+
+c09_completeness!(
+    c09_completeness_n1_m1 = (1, 1),
+    c09_completeness_n2_m1 = (2, 1), c09_completeness_n2_m2 = (2, 2), c09_completeness_n2_m3 = (2, 3),
+    c09_completeness_n3_m1 = (3, 1), c09_completeness_n3_m2 = (3, 2), c09_completeness_n3_m3 = (3, 3), c09_completeness_n3_m4 = (3, 4),
+    c09_completeness_n3_m5 = (3, 5), c09_completeness_n3_m6 = (3, 6), c09_completeness_n3_m7 = (3, 7),
+    c09_completeness_n4_m5 = (4, 5), c09_completeness_n4_m10 = (4, 10), c09_completeness_n4_m15 = (4, 15),
 );
